@@ -1393,6 +1393,12 @@ impl Writer {
         .map(RtpsReaderProxy::acked_up_to_before)
         .min()
         .unwrap_or_else(|| self.history_buffer.last_change_sequence_number().plus_1());
+      // An ACKNACK may claim more than has ever been written. Do not let that move the
+      // first keeper beyond the stored samples, where remove_changes_before finds nothing.
+      let acked_by_all_readers = min(
+        acked_by_all_readers,
+        self.history_buffer.last_change_sequence_number().plus_1(),
+      );
       // If all readers have acked all up to before 5, and depth is 5, we need
       // to keep samples 0..4, i.e. from acked_up_to_before - depth .
       max(
